@@ -10,6 +10,7 @@ import os
 import sys
 import time
 
+_T0 = time.time()
 REPO = os.environ.get("RIGVERIF_REPO", "/repo")
 VERIF = os.path.dirname(os.path.dirname(os.path.abspath(__file__)))
 
@@ -172,11 +173,32 @@ def enclosing_def(node):
     return n
 
 
+def _without_docstrings(node):
+    """Shallow copies of def/class nodes with the docstring statement
+    removed (recursively), so that text searches never match documentation."""
+    if not isinstance(node, (ast.FunctionDef, ast.AsyncFunctionDef,
+                             ast.ClassDef)):
+        return node
+    body = list(node.body)
+    if body and isinstance(body[0], ast.Expr) and \
+            isinstance(body[0].value, ast.Constant) and \
+            isinstance(body[0].value.value, str):
+        body = body[1:] or [ast.Pass()]
+    body = [_without_docstrings(b) for b in body]
+    new = type(node)(**{f: getattr(node, f) for f in node._fields
+                        if f != "body"}, body=body)
+    return ast.copy_location(new, node)
+
+
 def unparse(node):
     if node is None:
         return "None"
     if isinstance(node, str):
         return node
+    if isinstance(node, (ast.FunctionDef, ast.AsyncFunctionDef,
+                         ast.ClassDef)):
+        node = _without_docstrings(node)
+        return " ".join(ast.unparse(ast.fix_missing_locations(node)).split())
     return " ".join(ast.unparse(node).split())
 
 
@@ -216,7 +238,7 @@ class Report(object):
         self.counts = {}
         self.floors = {}
         self.selftests = []     # (name, fired?)
-        self.t0 = time.time()
+        self.t0 = _T0
         self.current_rule = None
 
     # a rule instance that holds
